@@ -700,7 +700,7 @@ func c10Sweep(c *Ctx) error {
 	}
 	defer os.RemoveAll(dir)
 	exe := filepath.Join(dir, "deep10")
-	build := exec.Command("go", "build", "-tags", "verif", "-o", exe, "./cmd/deep10")
+	build := exec.Command("go", append(h.GoBuildArgs(), "-tags", "verif", "-o", exe, "./cmd/deep10")...)
 	build.Dir = filepath.Join(h.Root(), "harness")
 	if out, err := build.CombinedOutput(); err != nil {
 		return fmt.Errorf("building deep10: %v\n%s", err, out)
